@@ -24,7 +24,7 @@ run)
   patch=$3; shift 3; OWN=$1
   envs
   cd $D/repo || exit 2
-  git reset -q --hard HEAD
+  git reset -q --hard HEAD; git clean -fdq
   git apply "$patch" 2>/dev/null || { git apply --3way "$patch" >/dev/null 2>&1 && [ -z "$(git diff --name-only --diff-filter=U)" ]; } || { git reset -q --hard HEAD; echo "patch does not apply"; exit 2; }
   git reset -q 2>/dev/null
   for id in "$@"; do
@@ -38,7 +38,7 @@ run)
     fi
     echo "$id exit=$code $rp $(echo "$out" | grep -E '^(VIOLATION|violation class|harness error)' | head -2 | cut -c1-260 | tr '\n' ' ')"
   done
-  git -C $D/repo reset -q --hard HEAD
+  git -C $D/repo reset -q --hard HEAD; git -C $D/repo clean -fdq
   ;;
 drop)
   git -C /repo worktree remove --force $D/repo 2>/dev/null
